@@ -186,7 +186,7 @@ func init() {
 			js = append(js, noMapOrder(job(pkgCodec, "HarnessC17Near", 1)), noMapOrder(job(pkgCodec, "HarnessC17Near", 2)), noMapOrder(job(pkgCodec, "HarnessC17Near", 3)))
 			maxN := int64(3)
 			if tier == "thorough" {
-				maxN = 5
+				maxN = 4
 			}
 			for n := int64(0); n <= maxN; n++ {
 				js = append(js, job(pkgServer, "HarnessC17Admit", n, 0))
@@ -200,7 +200,7 @@ func init() {
 			return js
 		},
 		Bounds: func(tier string) string {
-			return "command names: EVERY byte string of length 1..17 with 0..6 arguments against Transform2Type, and every documented name with any one letter replaced by 1..3 arbitrary bytes; end to end: every documented command in any letter case plus 6 undocumented names, 0..3 (quick) / 0..5 (thorough) one-byte arguments, followed by a second request in the same read, with and without a configured password, also for a client that connects after another one went away in the middle of a request (same descriptor number, or still connected); size: two pipelined requests with the limit an arbitrary value in [16,64]; reply limit arbitrary in [5,20]"
+			return "command names: EVERY byte string of length 1..17 with 0..6 arguments against Transform2Type, and every documented name with any one letter replaced by 1..3 arbitrary bytes; end to end: every documented command in any letter case plus 6 undocumented names, 0..3 (quick) / 0..4 (thorough) one-byte arguments, followed by a second request in the same read, with and without a configured password, also for a client that connects after another one went away in the middle of a request (same descriptor number, or still connected); size: two pipelined requests with the limit an arbitrary value in [16,64]; reply limit arbitrary in [5,20]"
 		},
 		Assumptions: []string{"documented set = rows marked Yes in docs/command.md (parsed at check time) plus AUTH", "arity oracle: an independent table of the documented protocol's arity classes (exact n / at least one / even), EVAL and EVALSHA need script, numkeys and a key"},
 		Stubs:       []string{stubWorld},
